@@ -52,6 +52,25 @@ def short_histories(prop, depth2: bool, small: bool, nseeds=None):
     return out
 
 
+def keepref_histories(prop, rng, nthird):
+    """assign a caller-constructed object, keep the reference, mutate it (1 or 2 steps); the recorder re-reads the
+    property after every step.  Also the same after a later overwrite / delete of the header."""
+    kind, _ = hv.VIEWS[prop]
+    ops = hv.ops_for(kind, small=True)
+    out = []
+    for a in [o for o in hv.prop_ops(prop) if o["op"] == "assign" and o.get("vw")]:
+        pre = [{"op": "get_view", "prop": prop, "vw": 3}, a]
+        slots = [a["vw"]] + ([a["n"]] if a.get("n") else [])
+        for vw in slots:
+            for o in ops:
+                out.append(pre + [dict(o, vw=vw)])
+            for _ in range(nthird):
+                mid = rng.choice([dict(rng.choice(ops), vw=vw), {"op": "direct_edit", "prop": prop, "y": None},
+                                  dict(rng.choice(ops), vw=3), {"op": "get_view", "prop": prop, "vw": vw + 3}])
+                out.append(pre + [mid, dict(rng.choice(ops), vw=vw), dict(rng.choice(ops), vw=rng.choice([vw, 3]))])
+    return out
+
+
 def random_walk(rng: random.Random, n: int):
     """one Response, several view properties with up to two live views each, scalars, direct edits"""
     props = rng.sample(hv.VIEW_PROPS, rng.randint(1, 3))
@@ -85,9 +104,20 @@ def random_walk(rng: random.Random, n: int):
         elif r < 0.92:
             p = rng.choice(props)
             o = dict(rng.choice(hv.prop_ops(p)))
-            if o.get("tag") == "value" and hv.VIEWS[p][0] == "wa":
+            if o.get("vw"):  # the assigned object is kept in a slot (live for www_authenticate = instance, else detached)
                 cands = [s for s, q in slots.items() if q == p]
-                o["vw"] = rng.choice(cands)
+                if rng.random() < 0.5 and nslot < 7:
+                    nslot += 1
+                    o["vw"] = nslot
+                else:
+                    o["vw"] = rng.choice(cands)
+                slots[o["vw"]] = p
+                if o.get("n"):
+                    others = [s for s in cands if s != o["vw"]]
+                    if others:
+                        o["n"] = rng.choice(others)
+                    else:
+                        o.pop("n")
             steps.append(o)
         else:
             sp = rng.choice(list(hv.SCALARS))
@@ -175,7 +205,14 @@ def replay_model(ctx: Ctx, cfg: str, limit=None):
         todo = nxt
     trans = [r for r in recs if key(r["pre"]) in path]
     if limit and len(trans) > limit:
-        trans = random.Random(ctx.seed).sample(trans, limit)
+        # a third of the sample: histories that contain "assign an object, keep the reference" before the transition
+        rs = random.Random(ctx.seed)
+        kept = [r for r in trans if r["act"]["op"] == "assign" or any(c["act"]["op"] == "assign" for c in path[key(r["pre"])])]
+        kept_ids = {id(r) for r in kept}
+        rest = [r for r in trans if id(r) not in kept_ids]
+        na = min(len(kept), limit // 3)
+        trans = rs.sample(kept, na) + rs.sample(rest, min(len(rest), limit - na))
+        ctx.notes["model_transitions_replayed_after_assign"] = ctx.notes.get("model_transitions_replayed_after_assign", 0) + na
     traces, exps = [], []
     for r in trans:
         chain = path[key(r["pre"])] + [r]
@@ -203,8 +240,20 @@ def _model_step(act):
     prop = {"set": "vary", "wa": "www_authenticate", "cc": "cache_control"}[act["k"]]
     op = act["op"]
     st = {"op": op, "vw": act["vw"]}
-    if op in ("get_view", "direct_edit"):
+    if op in ("get_view", "direct_edit", "assign"):
         st["prop"] = prop
+    if op == "assign":
+        st["tag"] = act["tag"]
+        if act["k"] == "wa":
+            w = act["w"]
+            rec = [_s(w["ty"]), _text(w["tok"]), [[_s(p["k"]), _text(p["v"])] for p in w["ps"]]]
+            if act["tag"] == "value":
+                st["w"] = rec
+            else:
+                st["ws"] = [rec]
+        else:
+            st["xs"] = [_s(x) for x in act["xs"]]
+        return st
     if op == "direct_edit":
         st["y"] = _text(act["y"])
     if "x" in act:
@@ -244,7 +293,7 @@ def run(ctx: Ctx):
         for k in ("set", "wa", "cc"):
             ctx.model_check(AREA, "HVModel", f"MCT_{k}", timeout=3000)
     from .. import tlc
-    for cfg in ("MCQ_orig_set", "MCQ_orig_wa"):
+    for cfg in ("MCQ_orig_set", "MCQ_orig_wa", "MCQ_nobind_wa"):
         r = tlc.run_tlc(AREA, "HVModel", cfg, workers=ctx.workers, tmp=ctx.tmp, allow_violation=True, timeout=600)
         ctx.notes[f"{cfg}_violates"] = r.invariant_violated
         if not r.invariant_violated:
@@ -260,8 +309,10 @@ def run(ctx: Ctx):
     for p in hv.VIEW_PROPS:
         hs = [h for h in short_histories(p, depth2=True, small=True) if len(h) == 5]
         traces += rng.sample(hs, min(len(hs), 60 if q else 1500))
+    for p in hv.VIEW_PROPS:
+        traces += keepref_histories(p, rng, 6 if q else 200)
     traces += scalar_traces(rng)
-    for _ in range(250 if q else 5000):
+    for _ in range(190 if q else 5000):
         traces.append(random_walk(rng, rng.randint(6, 14)))
     ctx.notes["histories"] = len(traces)
     lines = judge_traces(ctx, traces)
